@@ -16,15 +16,17 @@ Observations == ndJsonDeserialize(ObsFile)
 PF(applies, holds) == IF ~applies THEN "na" ELSE IF holds THEN "pass" ELSE "fail"
 
 Verdict(o) ==
-  LET \* "deadroot": the root is supplied through a location at which there is no document: nothing is designated
+  LET items == Len(o.api) > 5 /\ SubSeq(o.api, 1, 6) = "Items:"   \* judged by the worker against the document itself
+      \* "deadroot": the root is supplied through a location at which there is no document: nothing is designated
       t == IF o.api = "WithBase:deadroot" THEN 0 ELSE Designates(o, 1, o.ref, FALSE)
       kindok == t # 0 /\ o.nodes[t].kind = o.kind
   IN [ case     |-> o.case,
        t        |-> t,
        \* the generator's intention and the TLA+ designation must agree (else: model error)
-       aimok    |-> (o.target = 0) = (t = 0),
-       c05val   |-> PF(kindok, o.outcome = "ok" /\ o.res = o.nodes[t].full),
-       c05err   |-> PF(t = 0, o.outcome = "error"),
+       aimok    |-> items \/ ((o.target = 0) = (t = 0)),
+       c05val   |-> PF(kindok /\ ~items, o.outcome = "ok" /\ o.res = o.nodes[t].full),
+       c05err   |-> PF(t = 0 /\ ~items, o.outcome = "error"),
+       c05items |-> PF(items, o.itemsok),
        c05root  |-> PF(TRUE, o.rootsame),
        c05total |-> PF(TRUE, o.outcome \in {"ok", "error"}) ]
 
